@@ -70,7 +70,14 @@ macro_rules! dim {
     };
 }
 
-dim!(User { None => "none", Wrong => "wrong-ufrag", Right => "right" });
+dim!(User {
+    None => "none",
+    Wrong => "wrong-ufrag",
+    // "<agent ufrag>:<the peer's ufrag of the PREVIOUS ICE generation>": this session's username
+    // until the remote ICE restart, not afterwards (only enumerated in the restarted state)
+    Stale => "stale-remote-ufrag",
+    Right => "right",
+});
 dim!(Mi {
     Absent => "absent",
     Random => "random",
@@ -88,6 +95,9 @@ dim!(St {
     ConnPending => "connected-unnominated",
     Connected => "connected",
     ConnectedRelay => "connected-relaypeer",
+    // start(old remote credentials), one genuine authenticated check under them, then a remote ICE
+    // restart: start(new remote credentials) -> Checking again
+    Restarted => "checking-after-remote-restart",
 });
 dim!(Role { Controlling => "controlling", Controlled => "controlled" });
 dim!(RClass { Success => "success", Error => "error" });
@@ -310,6 +320,8 @@ const PEER_UFRAG: &str = "c06peer";
 const PEER_PWD: &str = "c06peerpassword0123456789";
 const THIRD_KEY: &[u8] = b"c06-third-party-key-000000";
 const WRONG_UFRAG: &str = "c06wrongufrag";
+const OLD_PEER_UFRAG: &str = "c06oldpeer";
+const OLD_PEER_PWD: &str = "c06oldpeerpassword9876543210";
 
 #[allow(clippy::too_many_arguments)]
 fn build_request(
@@ -326,6 +338,10 @@ fn build_request(
     match user {
         User::None => {}
         User::Wrong => attrs.push((A_USERNAME, format!("{WRONG_UFRAG}:{PEER_UFRAG}").into_bytes())),
+        User::Stale => attrs.push((
+            A_USERNAME,
+            format!("{}:{}", local.username_fragment, OLD_PEER_UFRAG).into_bytes(),
+        )),
         User::Right => attrs.push((
             A_USERNAME,
             format!("{}:{}", local.username_fragment, PEER_UFRAG).into_bytes(),
@@ -615,6 +631,22 @@ async fn setup(st: St, role: Role, salt: u64) -> Result<Env, String> {
         return Ok(env);
     }
     env.ice.add_remote_candidate(cand);
+    if st == St::Restarted {
+        env.ice.start(IceParameters::new(OLD_PEER_UFRAG, OLD_PEER_PWD)).map_err(|e| format!("start(old): {e}"))?;
+        let l0 = env
+            .wait_inbox(SETUP_DEADLINE, |ib| ib.iter().find(|(t, p, _)| *t == 'P' && p.typ == T_BINDING_REQ).map(|(_, p, _)| p.txid))
+            .await
+            .ok_or("agent never sent a connectivity check to P (old generation)")?;
+        let _ = l0;
+        // a genuine check of the old generation is processed while the old credentials are current
+        let txid = env.next_txid();
+        let old = build_request(&txid, User::Stale, Mi::Correct, 0, Fp::Good, false, Env::genuine_attr(role), &env.local);
+        env.p.send_to(&old, env.agent).await.map_err(|e| e.to_string())?;
+        env.wait_inbox(SETUP_DEADLINE, |ib| ib.iter().any(|(t, p, _)| *t == 'P' && p.txid == txid && p.typ == T_BINDING_OK).then_some(()))
+            .await
+            .ok_or("genuine old-generation check was not answered before the restart")?;
+        env.inbox.clear();
+    }
     env.ice.start(remote).map_err(|e| format!("start: {e}"))?;
     // the agent's first connectivity check towards P
     let l1 = env
@@ -625,7 +657,7 @@ async fn setup(st: St, role: Role, salt: u64) -> Result<Env, String> {
     if env.ice.state() != IceTransportState::Checking {
         return Err(format!("state {:?} instead of Checking", env.ice.state()));
     }
-    if st == St::Checking {
+    if st == St::Checking || st == St::Restarted {
         return Ok(env);
     }
     let ok = env.success_response(&l1);
@@ -928,6 +960,9 @@ fn enumerate(tier: vh::Tier) -> Vec<Case> {
             for &src in Src::ALL {
                 for uc in [false, true] {
                     for &user in User::ALL {
+                        if user == User::Stale && st != St::Restarted {
+                            continue;
+                        }
                         for &mi in Mi::ALL {
                             let fps: &[Fp] = if quick { &[Fp::Good] } else { Fp::ALL };
                             for &fp in fps {
@@ -1100,6 +1135,7 @@ fn main() {
     let mut positive_controls = 0u64;
     let mut positive_with_effect = 0u64;
     let mut barrier_fallbacks = 0u64;
+    let mut barrier_fallbacks_restarted = 0u64;
     let mut live_honoured = 0u64;
     let mut live_total = 0u64;
     let mut nonlive_resp = 0u64;
@@ -1109,7 +1145,14 @@ fn main() {
         let eff = if o.effects.is_empty() { "none".to_string() } else { o.effects.join("+") };
         *effect_hist.entry(eff.clone()).or_default() += 1;
         if !o.barrier_ok {
-            barrier_fallbacks += 1;
+            // after a remote ICE restart an agent that does not answer the genuine new-generation
+            // barrier is wrong about the new credentials, which is not this property's business:
+            // those cases are judged after the silence fallback and counted separately
+            if matches!(o.case, Case::Req(c) if c.st == St::Restarted) {
+                barrier_fallbacks_restarted += 1;
+            } else {
+                barrier_fallbacks += 1;
+            }
         }
         match o.case {
             Case::Req(c) => {
@@ -1159,6 +1202,7 @@ fn main() {
     rep.set("flaky_signatures", flaky);
     rep.set("confirmation_runs", confirm_runs);
     rep.set("barrier_fallbacks_to_silence", barrier_fallbacks);
+    rep.set("barrier_fallbacks_to_silence_after_restart", barrier_fallbacks_restarted);
     rep.set("cases_processed_by_agent", nontrivial);
     rep.set("distinct_nontrivial", classes.len() as u64);
     rep.set("distinct_outcomes", effect_hist.len() as u64);
